@@ -90,7 +90,7 @@ class StoreLogTail(threading.Thread):
         self.filenos = {}      # fileno -> set of urls stored there (rock: hash position; a second url = collision)
         self.keys = {}         # url -> cache key (hex) as logged
         self.released = set()  # file numbers released since the last start of the process
-        self.reused = set()    # urls whose latest swap-out went to a file number released earlier in this process lifetime
+        self.reused = set()    # urls whose latest swap-out went to a file number that had been in use before
         self.running = True
         self.buf = b""
         self.poll_lock = threading.Lock()
@@ -118,12 +118,14 @@ class StoreLogTail(threading.Thread):
                 if len(f) >= 13 and f[1] == b"SWAPOUT":
                     url = f[-1].decode("latin-1")
                     self.swapouts[url] = self.swapouts.get(url, 0) + 1
-                    self.filenos.setdefault(f[3].decode(), set()).add(url)
-                    self.keys[url] = f[4].decode()
-                    if f[3] in self.released:
+                    # a file number that is handed out again was released before (the release of an entry that came from the
+                    # index rebuild is not logged): the unlink of its old file may still be queued
+                    if f[3].decode() in self.filenos:
                         self.reused.add(url)
                     else:
                         self.reused.discard(url)
+                    self.filenos.setdefault(f[3].decode(), set()).add(url)
+                    self.keys[url] = f[4].decode()
                 elif len(f) >= 5 and f[1] == b"RELEASE" and f[2] != b"-1":
                     self.released.add(f[3])
             self.cv.notify_all()
